@@ -59,6 +59,7 @@ LineCases ==
   \cup { C(op, << "lab_1" >>, << "lab_1" >>, 0, 0, "") : op \in OneLabel }
   \cup { C("switch", << "la", "lb" >>, << "la", "lb" >>, 0, 2, ""), C("match", << "la", "lb", "lc" >>, << "la", "lb", "lc" >>, 0, 3, ""),
          C("switch", << "la" >>, << "la" >>, 0, 1, ""), C("match", << "la" >>, << "la" >>, 0, 1, "") }
+  \cup { C("replace", << x[1] >>, << x[2] >>, x[3], 1, "") : x \in IntSpell } \cup { C("replace", << >>, << >>, 0, 0, "") }
   \cup { C("int", << x[1] >>, << x[2] >>, x[3], 0, "") : x \in IntSpell }
   \cup { C("int", << nm >>, << nm >>, 0, 0, "") : nm \in { "pay", "appl", "axfer", "NoOp", "UpdateApplication", "DeleteApplication" } }
   \cup { C("pushint", << nm >>, << nm >>, 0, 0, "") : nm \in { "pay", "OptIn" } }
